@@ -32,5 +32,7 @@ def groups(tier, seed):
     # carriers: a sample of kernel contracts whose built-in safety obligations count for C11
     car = [g for g in C13.rowop_groups("quick") if ".view1" in g.gid and ("x200" in g.gid or "x320" in g.gid or "x65" in g.gid)]
     car += [g for g in C08.move_groups("quick") if "_mzd_add.2x573" in g.gid or "mzd_transpose.17x65.null" in g.gid or "mzd_submatrix.2x61-at-1,3" in g.gid]
+    car += [g for g in C13.combine_groups("quick") if g.gid.startswith("K.mzd_combine_even_in_place.")]   # alignment assertions of the in-place SSE2 kernel
+    car += [g for g in C08.move_groups("quick") if g.gid.startswith("K.mzd_submatrix.2x64-at-1,3")]        # word loop bound / shift count
     car += [g for g in C13.compress_groups("quick") if ".80x128." in g.gid]   # rowstride == width: a read one word past the last row is out of the block
     return with_canaries(gs) + car
